@@ -53,6 +53,8 @@ pub struct KCase {
     pub style: LenStyle,
     /// costs are a function of the edge alone (Bellman–Ford oracle applies)
     pub bf_ok: bool,
+    /// the case holds a number outside the properties' quantifiers (`shape_extreme`): correspondence only
+    pub silent: bool,
     pub label: &'static str,
     /// the `[algorithm]` section the algorithm is deserialised from (the application's path,
     /// `get_config_serde`); None = the enum is constructed directly from the fields above
@@ -747,7 +749,7 @@ fn base_case(edges: Vec<(usize, usize, f64)>, n_v: usize, source: usize, target:
 }
 
 fn kcase(base: SCase, label: &'static str) -> KCase {
-    KCase { base, yen: false, k_default: 2, query_k: None, sim: None, term: None, style: LenStyle::TieHeavy, bf_ok: true, label, cfg: None, cfg_ok: None, query_wf_json: None }
+    KCase { base, yen: false, k_default: 2, query_k: None, sim: None, term: None, style: LenStyle::TieHeavy, bf_ok: true, label, cfg: None, cfg_ok: None, query_wf_json: None, silent: false }
 }
 
 /// diamond 0 -> {1, 2} -> 3 (upper branch shorter)
@@ -1337,7 +1339,7 @@ pub fn case_at(seed: u64, quick: bool, k: usize, corpus: &[KCase]) -> KCase {
         3 | 4 => Some(KTerm::MaxIt(rng.below(8) as u64)),
         _ => Some(KTerm::Factor(rng.below(4) as u64)),
     };
-    let mut kc = KCase { base, yen, k_default, query_k, sim, term, style, bf_ok, label: "", cfg: None, cfg_ok: None, query_wf_json: None };
+    let mut kc = KCase { base, yen, k_default, query_k, sim, term, style, bf_ok, label: "", cfg: None, cfg_ok: None, query_wf_json: None, silent: false };
     // a quarter of the cases build the algorithm from its configuration JSON, as the application does
     if rng.chance(1, 4) {
         gen_cfg(&mut rng, &mut kc);
@@ -1350,7 +1352,30 @@ pub fn case_at(seed: u64, quick: bool, k: usize, corpus: &[KCase]) -> KCase {
             _ => serde_json::json!(true),
         });
     }
+    if kc.query_wf_json.is_none() {
+        shape_extreme_k(&mut kc, seed, 13, k as u64);
+    }
     kc
+}
+
+/// one single-via case in eight (constructed in code) goes where the generators never do
+/// (`searchprops::shape_extreme`; a generator of its own, so that the other cases keep their choices)
+fn shape_extreme_k(kc: &mut KCase, seed: u64, tag: u64, j: u64) {
+    if kc.yen || kc.cfg.is_some() || !kc.label.is_empty() {
+        return;
+    }
+    let mut rx = Rng::for_case(seed, 9300 + tag, j);
+    if rx.chance(1, 8) {
+        let numeric = rx.chance(2, 3);
+        let sh = crate::searchprops::shape_extreme(&mut kc.base, &mut rx, numeric);
+        if !sh.metric_ok && kc.style == LenStyle::Metric {
+            kc.style = LenStyle::Generic;
+        }
+        if !sh.oracle {
+            kc.silent = true;
+            kc.bf_ok = false;
+        }
+    }
 }
 
 fn sim_json(rng: &mut Rng, s: &Sim) -> serde_json::Value {
@@ -2278,7 +2303,9 @@ pub fn prop_case_at(s: Stream, seed: u64, quick: bool, j: usize) -> KCase {
         2 => Some(KTerm::Exact),
         _ => Some(KTerm::MaxIt(rng.below(8) as u64)),
     };
-    KCase { base, yen, k_default, query_k: None, sim, term, style, bf_ok: false, label: "", cfg: None, cfg_ok: None, query_wf_json: None }
+    let mut kc = KCase { base, yen, k_default, query_k: None, sim, term, style, bf_ok: false, label: "", cfg: None, cfg_ok: None, query_wf_json: None, silent: false };
+    shape_extreme_k(&mut kc, seed, s.tag(), j as u64);
+    kc
 }
 
 /// the property's own oracle on what a KSP query returned (`unlimited`: the outcome of the same query
@@ -2432,6 +2459,10 @@ fn run_single_via_prop(ctx: &mut Ctx, idx: usize, kc: &KCase, s: Stream) {
     } else {
         None
     };
+    if kc.silent || !crate::searchprops::outcome_finite(&ex.outcome) {
+        ctx.count("correspondence_only");
+        return;
+    }
     apply_prop_oracle(ctx, idx, s, kc, &b, &ex, unlimited.as_ref());
 }
 
@@ -2791,6 +2822,10 @@ fn run_single_via(ctx: &mut Ctx, idx: usize, kc: &KCase) {
     let out = k_outcome_line(&ex.outcome);
     ctx.emit(idx, line, out.clone());
     describe_k(ctx, kc);
+    if kc.silent || !crate::searchprops::outcome_finite(&ex.outcome) {
+        ctx.count("correspondence_only");
+        return;
+    }
     if oracle_early(ctx, idx, kc, &ex.outcome) {
         return;
     }
